@@ -23,7 +23,7 @@ func TestMain(m *testing.M) {
 	stats.Main(m, "C12")
 }
 
-const rule = "rapid: a broker with (a) a pipeline whose harness nodes call Send on the same broker from Process / Close / Reopen (target type with 0-2 pipelines), (b) a real gated.Filter wired to the same broker with 0-3 pending groups (some expired), (c) 0-2 background goroutines issuing write-locking calls in a loop; then a history of broker calls (Send, Reopen, RegisterNode, RegisterPipeline, RemovePipeline, RemovePipelineAndNodes, RemoveNode, thresholds, IsAnyPipelineRegistered, clock advance), each under a watchdog; oracle = every call returns within the bound, a miss is a violation only if a goroutine dump shows a library goroutine blocked on a lock; non-trivial = the history executed a re-entrant Send from Close or Reopen, or removed a gated filter with >=1 pending group; distinct = case descriptor"
+const rule = "rapid: a broker with (a) a pipeline whose harness nodes call Send - or a writing call (RegisterNode, threshold setters) - on the same broker from Process / Close / Reopen (target type with 0-2 pipelines), (b) a real gated.Filter wired to the same broker with 0-3 pending groups (some expired), (c) 0-2 background goroutines issuing write-locking calls in a loop; then a history of broker calls (Send, Reopen, RegisterNode, RegisterPipeline, RemovePipeline, RemovePipelineAndNodes, RemoveNode, thresholds, IsAnyPipelineRegistered, clock advance), each under a watchdog; oracle = every call returns within the bound, a miss is a violation only if a goroutine dump shows a library goroutine blocked on a lock; non-trivial = the history executed a re-entrant Send from Close or Reopen, or removed a gated filter with >=1 pending group; distinct = case descriptor"
 
 var bound = 10 * time.Second
 
@@ -51,6 +51,7 @@ func (c *compositeCounter) Process(ctx context.Context, e *eventlogger.Event) (*
 }
 
 type cfg struct {
+	ReWriter                  bool // the re-entrant call is a writing Broker call (RegisterNode / SetSuccessThreshold) instead of Send
 	ReProc, ReClose, ReReopen bool
 	TargetPipes               int
 	SecondG                   bool
@@ -59,7 +60,7 @@ type cfg struct {
 }
 
 func (c cfg) String() string {
-	return fmt.Sprintf("reentry{process=%v close=%v reopen=%v} targetPipelines=%d secondGPipeline=%v writers=%d ops=[%s]", c.ReProc, c.ReClose, c.ReReopen, c.TargetPipes, c.SecondG, c.Writers, strings.Join(c.Ops, "; "))
+	return fmt.Sprintf("reentry{writer=%v process=%v close=%v reopen=%v} targetPipelines=%d secondGPipeline=%v writers=%d ops=[%s]", c.ReWriter, c.ReProc, c.ReClose, c.ReReopen, c.TargetPipes, c.SecondG, c.Writers, strings.Join(c.Ops, "; "))
 }
 
 func build(c cfg) *world {
@@ -76,6 +77,12 @@ func build(c cfg) *world {
 				time.Sleep(200 * time.Microsecond) // let a background writer queue up on the lock
 			}
 			counter.Add(1)
+			if c.ReWriter {
+				_ = b.SetSuccessThreshold("B", 0)
+				_ = b.RegisterNode("reentrant-extra", &nodes.N{W: wd.w, Name: "rx", ID: "rx", T: eventlogger.NodeTypeFilter})
+				_ = b.IsAnyPipelineRegistered("B")
+				return
+			}
 			_, _ = b.Send(ctx, "B", &nodes.Lin{Path: "re"})
 		}
 	}
@@ -140,6 +147,7 @@ func TestC12Terminates(t *testing.T) {
 	}
 	rapid.Check(t, func(t *rapid.T) {
 		c := cfg{
+			ReWriter:    rapid.IntRange(0, 2).Draw(t, "reWriter") == 0,
 			ReProc:      rapid.Bool().Draw(t, "reProc"),
 			ReClose:     rapid.Bool().Draw(t, "reClose"),
 			ReReopen:    rapid.Bool().Draw(t, "reReopen"),
@@ -196,7 +204,12 @@ func TestC12Terminates(t *testing.T) {
 					lin.Enter = func(n *nodes.N) {
 						if n.ID == "x" || n.ID == "sA" {
 							wd.reProc.Add(1)
-							_, _ = b.Send(ctx, "B", &nodes.Lin{Path: "re"})
+							if c.ReWriter {
+								_ = b.SetSuccessThresholdSinks("B", 0)
+								_ = b.RegisterNode("reentrant-extra", &nodes.N{W: wd.w, Name: "rx", ID: "rx", T: eventlogger.NodeTypeFilter})
+							} else {
+								_, _ = b.Send(ctx, "B", &nodes.Lin{Path: "re"})
+							}
 						}
 					}
 				}
